@@ -1,8 +1,9 @@
 (* C19 — published broker counts are rounded up to 8 and never too low; unique addresses; distinct-IP journal.
-   Models: Model/Round8.v, Model/Metrics.v, Model/Journal.v.  Proofs: Proofs/Round8Proofs.v, MetricsProofs.v, JournalProofs.v. *)
+   Models: Model/Round8.v, Model/Metrics.v, Model/Journal.v, Model/BrokerJournal.v.
+   Proofs: Proofs/Round8Proofs.v, MetricsProofs.v, JournalProofs.v, BrokerJournalProofs.v. *)
 From Coq Require Import List NArith ZArith Bool.
-From Snow Require Import Lib.Wire Model.Round8 Model.Metrics Model.Journal.
-From Snow Require Import Proofs.Round8Proofs Proofs.MetricsProofs Proofs.JournalProofs.
+From Snow Require Import Lib.Wire Model.Round8 Model.Metrics Model.Journal Model.BrokerJournal.
+From Snow Require Import Proofs.Round8Proofs Proofs.MetricsProofs Proofs.JournalProofs Proofs.BrokerJournalProofs.
 Import ListNotations.
 
 (* ---- binCount (float64 exact below 2^53: stated limitation, floats are not modelled) ---- *)
@@ -133,3 +134,73 @@ Example C19_journal_example :
       (w_out (jrun N N (fun x => x) N.eqb [Add 1%Z 5%N; Add 7%Z 6%N; Flush 9%Z; Add 9%Z 5%N] (new_writer 0%Z 3%Z)))
   = [(0%Z, 7%Z, [5%N]); (7%Z, 9%Z, [6%N])].
 Proof. reflexivity. Qed.
+
+(* ---- the journal behind the broker: the call site (ProxyPolls -> RecordIPAddress) ---- *)
+(* A broker history = IPC/metrics ops with the writer's clock reading, and explicit flushes.  The metrics component
+   is exactly [exec] of the ops (so every theorem above applies to it), and the writer component is exactly the
+   writer run on one Add per ACCEPTED poll (relay pattern passed, RemoteAddr split) at that poll's instant:
+   the de-duplication sets, zeroMetrics and the geoip state never enter. *)
+Theorem C19_journal_call_site :
+  forall (hash : Type) (mask : bytes -> hash) (heqb : hash -> hash -> bool) (g : bool) (t0 k : Z) (ops : list bop),
+  let s := brun hash mask heqb ops (binit hash g t0 k) in
+  b_m s = exec (flat_map mop_of ops) (minit g) /\
+  b_w s = jrun bytes hash mask heqb (flat_map jop_of ops) (new_writer t0 k).
+Proof. exact brun_split. Qed.
+
+(* every accepted poll — repeated or not within the metrics period — is, in order, in exactly one emitted chunk or in
+   the open sketch; chunk i holds exactly the masked addresses of the polls of segment i, which all happened inside
+   the chunk's interval; the chunks tile the time line *)
+Theorem C19_journal_records_every_poll :
+  forall (hash : Type) (mask : bytes -> hash) (heqb : hash -> hash -> bool) (g : bool) (t0 k : Z) (ops : list bop),
+  bmono t0 ops ->
+  let s := brun hash mask heqb ops (binit hash g t0 k) in
+  b_m s = exec (flat_map mop_of ops) (minit g) /\
+  exists (segs : list (list (Z * bytes))) (open : list (Z * bytes)),
+    concat segs ++ open = flat_map accepted ops /\
+    Forall2 (chunk_ok bytes hash mask heqb) (w_out (b_w s)) segs /\
+    w_cur (b_w s) = sk_of hash heqb (masks bytes hash mask open) /\
+    Forall (fun e => (w_last (b_w s) <= fst e)%Z) open /\
+    tiled hash t0 (w_out (b_w s)) (w_last (b_w s)).
+Proof. exact every_poll_recorded. Qed.
+
+(* pointwise, with no hypothesis on the metrics state: the address of an accepted poll at instant [now] is in a chunk
+   whose interval contains [now], or in the open sketch begun no later than [now] *)
+Theorem C19_journal_poll_in_current_chunk :
+  forall (hash : Type) (mask : bytes -> hash) (heqb : hash -> hash -> bool), (forall a b, heqb a b = true <-> a = b) ->
+  forall (g : bool) (t0 k : Z) (ops : list bop) (now : Z) (o : op) (ad : bytes),
+  bmono t0 ops -> In (At now o) ops -> recorded o = Some ad ->
+  let w := b_w (brun hash mask heqb ops (binit hash g t0 k)) in
+  (exists c, In c (w_out w) /\ (c_start c <= now <= c_end c)%Z /\ In (mask ad) (c_sk c)) \/
+  ((w_last w <= now)%Z /\ In (mask ad) (w_cur w)).
+Proof. exact poll_in_current_chunk. Qed.
+
+(* the reader's window count over the journal a broker history produced = number of distinct masked addresses of the
+   accepted polls in the segments whose chunk lies inside the window *)
+Theorem C19_journal_window_counts_polls :
+  forall (hash : Type) (mask : bytes -> hash) (heqb : hash -> hash -> bool), (forall a b, heqb a b = true <-> a = b) ->
+  forall (g : bool) (t0 k : Z) (ops : list bop) (from to : Z),
+  bmono t0 ops ->
+  let w := b_w (brun hash mask heqb ops (binit hash g t0 k)) in
+  exists (segs : list (list (Z * bytes))) (open : list (Z * bytes)) (l : list hash),
+    concat segs ++ open = flat_map accepted ops /\
+    Forall2 (chunk_ok bytes hash mask heqb) (w_out w) segs /\
+    NoDup l /\
+    fst (count hash heqb from to (w_out w)) = N.of_nat (length l) /\
+    (forall x, In x l <-> exists c seg e, In (c, seg) (combine (w_out w) segs) /\
+                                           (from <= c_start c)%Z /\ (c_end c <= to)%Z /\ In e seg /\ x = mask (snd e)).
+Proof. exact window_counts_polls. Qed.
+
+(* one address, one proxy type, three polls in one metrics period, interval 2: counted once by the metrics, and
+   present in each of the two later chunks' windows as well *)
+Example C19_journal_repeat_example :
+  let ops := [At 1%Z (ProxyPoll (Some ([65%N], [])) 0 0 true Idle); At 2%Z (ProxyPoll (Some ([66%N], [])) 0 0 true Idle);
+              At 5%Z (ProxyPoll (Some ([67%N], [])) 0 0 true Idle); At 6%Z (ProxyPoll (Some ([65%N], [])) 0 0 true Idle);
+              At 9%Z (ProxyPoll (Some ([65%N], [])) 0 0 true Idle); FlushAt 10%Z] in
+  let s := brun bytes (fun x => x) beq ops (binit bytes false 0%Z 2%Z) in
+  bmono 0%Z ops /\
+  map (fun c => (c_start c, c_end c, c_sk c)) (w_out (b_w s)) =
+    [(0%Z, 5%Z, [[65%N]; [66%N]]); (5%Z, 9%Z, [[67%N]; [65%N]]); (9%Z, 10%Z, [[65%N]])] /\
+  r_type (print (b_m s)) 0%N = 3%N /\
+  fst (count bytes beq 5%Z 9%Z (w_out (b_w s))) = 2%N /\ fst (count bytes beq 9%Z 10%Z (w_out (b_w s))) = 1%N.
+Proof. cbv zeta. split; [cbn; repeat split; discriminate | repeat split; reflexivity]. Qed.
+
